@@ -5,6 +5,7 @@ package main
 import (
 	"fmt"
 	"go/types"
+	"sort"
 	"strings"
 
 	"golang.org/x/tools/go/ssa"
@@ -257,6 +258,10 @@ func (vc *VC) finalScript(o *Obligation, produceModels bool) string {
 	}
 	if usesStr {
 		b.WriteString(preludeStrings())
+	}
+	usesFields := strings.Contains(body, "gs.nf") || strings.Contains(body, "gs.fld")
+	if usesFields {
+		b.WriteString(preludeFields())
 	}
 	b.WriteString(preludeArith(strings.Contains(body, "(bitand ") || strings.Contains(body, "(bitor ")))
 	b.WriteString(vc.sorts.decls())
@@ -710,6 +715,67 @@ func (vc *VC) strLit(s string) string {
 	}
 	vc.decls = append(vc.decls, strings.TrimRight(b.String(), "\n"))
 	return n
+}
+
+// fieldFacts (once per VC): for every short string literal L and every one-character literal separator S of the VC
+// the number of fields of L and each field, and that decimal renderings contain no separator.
+func (vc *VC) fieldFacts() {
+	uses := false
+	for _, d := range vc.decls {
+		if strings.Contains(d, "gs.nf") || strings.Contains(d, "gs.fld") {
+			uses = true
+		}
+	}
+	for _, o := range vc.obls {
+		if strings.Contains(o.Script, "gs.nf") || strings.Contains(o.Script, "gs.fld") {
+			uses = true
+		}
+	}
+	if !uses {
+		return
+	}
+	{
+		var seps []string
+		for l := range vc.strLits {
+			if len(l) == 1 {
+				seps = append(seps, l)
+			}
+		}
+		sort.Strings(seps)
+		done := map[string]bool{}
+		for {
+			var lits []string
+			for l := range vc.strLits {
+				if !done[l] && len(l) <= 48 {
+					lits = append(lits, l)
+				}
+			}
+			if len(lits) == 0 {
+				break
+			}
+			sort.Strings(lits)
+			for _, l := range lits {
+				done[l] = true
+				for _, sp := range seps {
+					parts := strings.Split(l, sp)
+					ln, sn := vc.strLit(l), vc.strLit(sp)
+					var b strings.Builder
+					fmt.Fprintf(&b, "(assert (= (gs.nf %s %s) %d))", ln, sn, len(parts))
+					for k, pc := range parts {
+						fmt.Fprintf(&b, "\n(assert (= (gs.fld %s %s %d) %s))", ln, sn, k, vc.strLit(pc))
+					}
+					vc.decls = append(vc.decls, b.String())
+				}
+			}
+		}
+		for _, sp := range seps {
+			if (sp[0] >= '0' && sp[0] <= '9') || sp[0] == '-' {
+				continue
+			}
+			sn := vc.strLit(sp)
+			vc.decls = append(vc.decls, fmt.Sprintf("(assert (= (gs.nf gs.empty %s) 1))\n(assert (forall ((i Int)) (! (= (gs.nf (gs.itoa i) %s) 1) :pattern ((gs.nf (gs.itoa i) %s)))))", sn, sn, sn))
+		}
+	}
 }
 
 func truncate(s string, n int) string {
